@@ -229,6 +229,9 @@ class Decider:
             elif self.quick_unsat(st.pc, nc):
                 choice = True
             elif not self.feasible(st.pc, c):
+                if not self.feasible(st.pc, nc):
+                    # the path condition itself is contradictory
+                    raise PathEnd()
                 choice = False
             elif not self.feasible(st.pc, nc):
                 choice = True
